@@ -12,7 +12,7 @@ import wiring
 
 def run(ctx):
     ctx.tlc('ProxyServer', 'MC_PS_c11_quick.cfg', label='EventuallyReleased (liveness under fairness)', timeout=1800)
-    trace, report = lc.record(ctx)
+    trace, report = lc.record(ctx, census=True)
     accepted, rejected, lines = lc.validate(ctx, trace)
     for r in rejected:
         st = lc.conn_state_at_end(r['events'])
@@ -21,6 +21,12 @@ def run(ctx):
                       'scenario %s: %s; first unexplained event %s; connections without exit stopped at %s'
                       % (r['scenario'], r['invariant'] or 'not a behaviour of ProxyServer.tla', r['event'], stuck), r)
     for sc in report:
+        if sc['family'] == 'leakcheck':
+            if sc.get('error') or sc.get('off'):
+                raise vf.Inconclusive('goroutine census: %s' % (sc.get('error') or 'not run'))
+            for g in sc.get('leaked') or []:
+                ctx.violation({'check': 'C11', 'kind': 'goroutine_never_ended'},
+                              'after every scenario ended and every server was stopped (%.0f s after the stalled HTTP/2 clients connected) a goroutine is still inside the proxy: %s' % (sc.get('waited_s', 0), g), sc)
         if sc['family'] == 'timeouts':
             for c in sc.get('not_cut_by_proxy') or []:
                 ctx.violation({'check': 'C11', 'kind': 'not_cut_by_proxy', 'conn_kind': c.split(':')[1]},
@@ -40,7 +46,8 @@ def run(ctx):
             ctx.violation({'check': 'C11', 'kind': 'not_cut_by_proxy', 'conn_kind': 'wired:' + k},
                           'real wiring, flags -timeout-tls-handshake=250ms -timeout-http-idle=300ms: %s connection cut after %s ms (-1 = still open after 4 s)' % (k, v), wout)
     cov = {'traces_validated_against_impl': len(accepted), 'real_flag_wiring': {'servers': w, 'cut_after_ms': cuts}, 'samples': [{'trace_prefix': lc.sample_trace(lines)}],
-           'scenarios': [s['name'] for s in report if s['family'] != 'panic'], 'events': len(lines),
+           'scenarios': [s['name'] for s in report if s['family'] not in ('panic', 'leakcheck')],
+           'goroutine_census': [s for s in report if s['family'] == 'leakcheck'], 'events': len(lines),
            'timeouts_scenario': [s.get('latency') for s in report if s['family'] == 'timeouts'],
            'rule': 'a trace is accepted only if every accepted connection reaches exit with its raw conn closed and counted; client aborts at random byte offsets of '
                    'HTTP/1.1 and HTTP/2 sessions, garbage, plain HTTP, stalled handshakes, the gated hand-off race, clients that never close'}
